@@ -27,15 +27,67 @@ CORPUS = [
 REQUIRED = ["mCancel", "wSrn", "wSend", "wFinish", "sdDrainCancel", "sdDrainGet", "rDecidePark", "rScanFwd"]
 
 
+def cache_cancel_scenarios(ctx: Ctx):
+    """Cancellation on executors with a cache directory (the Lean model Sys has no cache: this part is decided by the
+    property's oracles alone): cached and uncached calls cancelled while queued behind a slow call."""
+    import json
+    import os
+    import subprocess
+    import sys
+
+    from .common import VERIF, InfraError
+
+    from .common import finish_json_child, start_json_child
+
+    repo = os.environ.get("VERIF_REPO", "/repo")
+    procs = [(a, start_json_child(["vh.cache_cancel_runner"] + a.split()))
+             for a in ("block 1 0", "block 1 1", "block 2 0", "percall 1 0", "percall 2 1")]
+    bad = []
+    for a, h in procs:
+        o = finish_json_child(h, 300)
+        if o is None:
+            raise InfraError("cache-cancel runner produced no output (%s)" % a)
+        if not os.path.realpath(o["pin"]).startswith(os.path.realpath(repo) + os.sep):
+            raise InfraError("cache-cancel runner imported executorlib from " + o["pin"])
+        ctx.case({"cache_cancel": a})
+        ctx.count("cache_cancel_scenarios")
+        problems = []
+        for c in o["calls"]:
+            if c["cancel_returned"] is True:
+                if c["state"] != "cancelled":
+                    problems.append({"call": c, "why": "cancel() returned True but the future is " + c["state"]})
+                if c["kind"] == "new" and ("run %d" % c["x"]) in o["runs_second_session"]:
+                    problems.append({"call": c, "why": "cancelled call was executed"})
+            elif c["state"] != "finished" or c.get("value") != c["expected"]:
+                problems.append({"call": c, "why": "a call that was not cancelled did not deliver its value"})
+        if o["shutdown"] != "returned":
+            problems.append({"why": "shutdown(wait=True): " + o["shutdown"]})
+        if problems:
+            bad.append({"scenario": a, "problems": problems[:4], "outcome": o})
+    ctx.oblige("cache + cancel: a cancelled queued call (cached or not) stays cancelled and is not executed, every other call delivers "
+               "its value, shutdown returns", not bad)
+    if bad:
+        ctx.violation({"kind": "cache_cancel", "failing_input": True},
+                      {"what": "cancelling a queued call on an executor with a cache directory affected other calls / the shutdown, or the "
+                               "cancelled call ran", "cases": bad[:2]})
+
+
 def body(ctx: Ctx):
     if ctx.replay_file:
+        import json as _json
+
+        if "cases" in _json.load(open(ctx.replay_file)):
+            cache_cancel_scenarios(ctx)
+            return {"rule": "replay of the cache + cancel scenarios"}
         return sysprop.replay(ctx, "C06", ctx.replay_file)
     n = 90 if ctx.tier == "quick" else 900
     res = sysprop.campaign(ctx, "C06", PROFILE, n, CORPUS, REQUIRED)
+    cache_cancel_scenarios(ctx)
     res["rule"] = ("scenarios: executor mode (block 1-3 workers | per-call with max_cores/max_workers/none), resolver on/off, "
                    "1-6 calls (gated / with futures as args, kwargs, nested lists), user script interleaving submit, cancel "
                    "(at queued / parked / running / finished points via gates), await, sleep, shutdown(wait, cancel_futures); "
-                   "seeded schedule perturbation per thread role; non-trivial = >=2 calls or >=3 script commands; distinct = sha1")
+                   "seeded schedule perturbation per thread role; non-trivial = >=2 calls or >=3 script commands; distinct = sha1; plus five oracle-only "
+                   "scenarios with a cache directory (cached / uncached calls cancelled while queued)")
     res["trusted_base_extra"] = sysprop.TRUST
     return res
 
